@@ -109,52 +109,172 @@ splits! {
     q_c14_split_16 = (16, false);
     q_c14_split_17 = (17, false);
     q_c14_split_18 = (18, false);
-    q_c14_spare_split_03 = (3, true);
-    q_c14_spare_split_06 = (6, true);
-    q_c14_spare_split_08 = (8, true);
-    q_c14_spare_split_13 = (13, true);
 }
 
-/// three pieces / mixing both interfaces on one stream
-#[kani::proof]
-#[kani::unwind(24)]
-fn q_c14_mixed_interfaces() {
+// ---------------------------------------------------------------------------------------------
+// the zero-copy interface (spare_capacity_mut + bytes_written), alone and mixed with
+// extend_from_slice. spare_capacity_mut reserves 64 KiB: beyond CBMC's field-sensitivity limit the
+// buffer contents (and with them the parsed length prefix) stop being constants for symbolic
+// execution, so these harnesses use a shorter stream: two 5-byte frames.
+// ---------------------------------------------------------------------------------------------
+fn stream2(x: u8, y: u8) -> [u8; 10] {
+    [5, 0, 0, 0, x, 5, 0, 0, 0, y]
+}
+
+fn drain2(p: &mut Packetizer, s: &[u8; 10], next: &mut usize, fed: usize) {
+    loop {
+        match p.next_message() {
+            Some(m) => {
+                assert!(*next < 2, "more frames than were fed");
+                let a = *next * 5;
+                assert!(a + 5 <= fed, "a frame was delivered before it was complete");
+                assert!(m.len() == 5, "frame length differs");
+                assert!(m[0] == 5 && m[1] == 0 && m[2] == 0 && m[3] == 0 && m[4] == s[a + 4], "frame bytes differ (lost or duplicated bytes)");
+                *next += 1;
+            }
+            None => break,
+        }
+    }
+    let complete = if fed >= 10 { 2 } else if fed >= 5 { 1 } else { 0 };
+    assert!(*next == complete, "a complete frame was withheld");
+}
+
+fn pieces2(k: usize, first_spare: bool, second_spare: bool) {
+    let s = stream2(kani::any(), kani::any());
+    let mut p = Packetizer::new();
+    let mut next = 0;
+    if first_spare {
+        feed_spare(&mut p, &s[..k]);
+    } else {
+        p.extend_from_slice(&s[..k]);
+    }
+    drain2(&mut p, &s, &mut next, k);
+    if second_spare {
+        feed_spare(&mut p, &s[k..]);
+    } else {
+        p.extend_from_slice(&s[k..]);
+    }
+    drain2(&mut p, &s, &mut next, 10);
+    assert!(next == 2);
+}
+
+macro_rules! spare_splits {
+    ($($name:ident = ($k:expr, $a:expr, $b:expr);)*) => {$(
+        #[kani::proof]
+        #[kani::unwind(14)]
+        fn $name() {
+            pieces2($k, $a, $b);
+        }
+    )*};
+}
+
+spare_splits! {
+    q_c14_spare_spare_02 = (2, true, true);
+    q_c14_extend_spare_02 = (2, false, true);
+    q_c14_spare_extend_02 = (2, true, false);
+}
+
+/// one frame through the zero-copy interface, split anywhere (also inside / right after the length
+/// prefix, which exercises the `len: Some(_)` branch of spare_capacity_mut)
+fn pieces1(k: usize, first_spare: bool, second_spare: bool) {
+    let x: u8 = kani::any();
+    let s = [5u8, 0, 0, 0, x];
+    let mut p = Packetizer::new();
+    if first_spare {
+        feed_spare(&mut p, &s[..k]);
+    } else {
+        p.extend_from_slice(&s[..k]);
+    }
+    if k < 5 {
+        assert!(p.next_message().is_none(), "a frame was delivered before it was complete");
+    }
+    if second_spare {
+        feed_spare(&mut p, &s[k..]);
+    } else {
+        p.extend_from_slice(&s[k..]);
+    }
+    match p.next_message() {
+        Some(m) => assert!(m.len() == 5 && m[0] == 5 && m[1] == 0 && m[2] == 0 && m[3] == 0 && m[4] == x, "frame bytes differ"),
+        None => panic!("a complete frame was withheld"),
+    }
+    assert!(p.next_message().is_none(), "more frames than were fed");
+}
+
+macro_rules! one_frame_splits {
+    ($($name:ident = ($k:expr, $a:expr, $b:expr);)*) => {$(
+        #[kani::proof]
+        #[kani::unwind(8)]
+        fn $name() {
+            pieces1($k, $a, $b);
+        }
+    )*};
+}
+
+one_frame_splits! {
+    q_c14_one_spare_spare_0 = (0, true, true);
+    q_c14_one_spare_spare_1 = (1, true, true);
+    q_c14_one_spare_spare_3 = (3, true, true);
+    q_c14_one_extend_spare_1 = (1, false, true);
+    q_c14_one_extend_spare_4 = (4, false, true);
+    q_c14_one_spare_extend_1 = (1, true, false);
+    q_c14_one_extend_spare_0 = (0, false, true);
+    q_c14_one_extend_spare_2 = (2, false, true);
+    q_c14_one_extend_spare_3 = (3, false, true);
+    q_c14_one_extend_spare_5 = (5, false, true);
+}
+
+/// three pieces through extend_from_slice
+fn three_pieces(k1: usize, k2: usize) {
     let s = stream(kani::any(), kani::any());
     let mut p = Packetizer::new();
     let mut next = 0;
-    p.extend_from_slice(&s[..2]);
-    drain(&mut p, &s, &mut next, 2);
-    feed_spare(&mut p, &s[2..9]);
-    drain(&mut p, &s, &mut next, 9);
-    p.extend_from_slice(&s[9..]);
+    p.extend_from_slice(&s[..k1]);
+    drain(&mut p, &s, &mut next, k1);
+    p.extend_from_slice(&s[k1..k2]);
+    drain(&mut p, &s, &mut next, k2);
+    p.extend_from_slice(&s[k2..]);
     drain(&mut p, &s, &mut next, 18);
     assert!(next == 3);
 }
 
-/// byte by byte over the first two frames
-#[kani::proof]
-#[kani::unwind(24)]
-fn q_c14_byte_by_byte() {
-    let s = stream(kani::any(), kani::any());
-    let mut p = Packetizer::new();
-    let mut next = 0;
-    let mut k = 0;
-    while k < 11 {
-        p.extend_from_slice(&s[k..k + 1]);
-        let complete = if k + 1 >= 11 { 2 } else if k + 1 >= 6 { 1 } else { 0 };
-        loop {
-            match p.next_message() {
-                Some(m) => {
-                    assert!(next < complete, "a frame was delivered before it was complete");
-                    assert!(m.len() == if next == 0 { 6 } else { 5 });
-                    next += 1;
-                }
-                None => break,
-            }
+macro_rules! three {
+    ($($name:ident = ($a:expr, $b:expr);)*) => {$(
+        #[kani::proof]
+        #[kani::unwind(24)]
+        fn $name() {
+            three_pieces($a, $b);
         }
-        assert!(next == complete, "a complete frame was withheld");
+    )*};
+}
+
+three! {
+    q_c14_three_02_09 = (2, 9);
+    q_c14_three_04_06 = (4, 6);
+    q_c14_three_05_12 = (5, 12);
+}
+
+/// byte by byte: one frame and the first byte of the next
+#[kani::proof]
+#[kani::unwind(10)]
+fn q_c14_byte_by_byte() {
+    let x: u8 = kani::any();
+    let s = [5u8, 0, 0, 0, x, 6];
+    let mut p = Packetizer::new();
+    let mut k = 0;
+    let mut got = 0;
+    while k < 6 {
+        p.extend_from_slice(&s[k..k + 1]);
+        match p.next_message() {
+            Some(m) => {
+                assert!(k == 4, "a frame was delivered before it was complete (or twice)");
+                assert!(m.len() == 5 && m[4] == x);
+                got += 1;
+            }
+            None => assert!(k != 4, "a complete frame was withheld"),
+        }
         k += 1;
     }
+    assert!(got == 1);
 }
 
 #[cfg(verif_replay)]
